@@ -649,7 +649,10 @@ def do_replay(pid, path):
 
 
 def write_evidence(pid, tier, seed, cfg, obligations, discharged, s, stats, t0, violations, problems, leancheck, extra):
-    os.makedirs(os.path.join(VERIF, "evidence"), exist_ok=True)
+    # VERIF_EVIDENCE_DIR: where to write the evidence file (default: /verif/evidence). Set to a scratch directory when a
+    # check is tried against a seeded change applied to /repo, so that the committed evidence stays the unchanged tree's.
+    evdir = os.environ.get("VERIF_EVIDENCE_DIR") or os.path.join(VERIF, "evidence")
+    os.makedirs(evdir, exist_ok=True)
     s = s or {"cases": 0, "ops": 0, "nontrivial": 0, "samples": [{"note": "correspondence did not run"}],
               "disagree": [], "spec_model_false": 0}
     cov = {
@@ -678,6 +681,6 @@ def write_evidence(pid, tier, seed, cfg, obligations, discharged, s, stats, t0, 
         cov["leanchecker"] = leancheck
     ev = {"property_id": pid, "tier": tier, "seed": seed, "level": cfg.get("level", "proof"), "coverage": cov,
           "assumptions": cfg.get("assumptions", []), "wall_s": round(time.time() - t0, 2), "violations": violations}
-    with open(os.path.join(VERIF, "evidence", pid + ".json"), "w") as f:
+    with open(os.path.join(evdir, pid + ".json"), "w") as f:
         json.dump(ev, f, indent=1)
         f.write("\n")
